@@ -80,6 +80,12 @@ CHECKS["C13"] = dict(
   note="Trusted: symgo executor (RWMutex with writer preference, select as nondeterministic choice among ready cases, deadlines expiring after at most 3 polls), z3. Bounds: <=2 goroutines. Known findings: F-C13-close-blocks-on-full-queue, F-C13-close-blocks-on-waiting-consumer. Outside: wall-clock latency, goroutine counts after Conn.Close, preemptive interleavings of Close with senders.",
   ref="DESIGN.md §4 C13")
 
+CHECKS["C06"] = dict(
+  technique="symbolic execution of go/ssa with SMT (z3): write/read round trips of packages with symbolic fields, reader->writer->reader round trips over arbitrary symbolic bytes for format packages, independent encoders/decoders written in the harness",
+  text="Bounded symbolic model checking of the WriteTo/ReadFrom pairs of DONE, EED, ERROR, ENVCHANGE, LANGUAGE, DYNAMIC/2, LOGINACK, LOGOUT, MSG, RETURNSTATUS, CAPABILITY (+ valueMask.Bytes/parseValueMask bit layout), CURDECLARE/3, CURINFO/3, CUROPEN, CURFETCH, CURUPDATE, CURDELETE, CURCLOSE, OPTIONCMD with all scalar fields symbolic and string lengths 0..2 (3 thorough), optional parts selected by symbolic flags: written bytes start with the token, dispatch through LookupPackage, read back deep-equal and consume exactly the bytes written. PARAMFMT/PARAMFMT2 over all data types: every package the reader accepts from N arbitrary bytes is re-written, its length field must equal the bytes that follow, and it must read back deep-equal. ROWFMT/ROWFMT2 from an independent encoder (INT4 + VARCHAR columns, symbolic names/status/user type/max length) decode to the sent values.",
+  note="Trusted: symgo executor (Real arithmetic for math.Ceil(float64(n)/8) exact on the integers involved), z3. Bounds: strings <=2/3 bytes, <=2 members/columns, format packages <=16..24 bytes and <=4 fields. Outside: strings at the maximum of their length prefix, BLOB formats, PARAMS/ROW data (value codecs: C04/C05), the login record and client-only message layout beyond what C09's harnesses decode.",
+  ref="DESIGN.md §4 C06")
+
 NOT_APPLICABLE = {
 }
 
